@@ -125,7 +125,8 @@ CHECKS["C33"] = dict(
               "rebuilt on the surviving store, and the recorded trace is judged by the TLA+ trace spec",
     level_text="TLC checks durability on the Traffic model with persistence under the lock, then enumerates all interleavings of "
                "the mem/persist steps of 2 concurrent updaters (2 updates each) and of a payer (issue / emit ok|fail / persist "
-               "cheque) with a restart after every prefix (implementation-shaped model: write after unlock); each behaviour is "
+               "cheque) and of a live refresh (TrafficInit as a goroutine of its own; its reads of the persisted totals are gates) with "
+               "a restart after every prefix (weaker-design model: write after unlock, refresh reads before locking); each behaviour is "
                "forced on real traffic.New + cheque.NewChequeStore (a Put parks until released, parked writes are lost at the "
                "crash), the service is rebuilt (New + Init, then handshake / credit / pay per peer) and judged by "
                "TrafficRestartTrace.tla; a violation is reported only for behaviours the real code reproduces",
@@ -135,17 +136,22 @@ CHECKS["C33"] = dict(
     design=[dict(spec="MCTraffic.tla", cfg="MCTraffic.cfg", workers=4, timeout=600)],
     gen=dict(
         quick=[dict(_SCHED, name="2x2-updaters", env=dict(VERIF_PAY=0, VERIF_WIDE=0, VERIF_NUPD=2)),
-               dict(_SCHED, name="payer+updaters", env=dict(VERIF_PAY=1, VERIF_WIDE=1, VERIF_NUPD=1), max=450)],
+               dict(_SCHED, name="payer+updaters", env=dict(VERIF_PAY=1, VERIF_WIDE=1, VERIF_NUPD=1), max=400),
+               # a live refresh (TrafficInit) as a third goroutine: {refresh || update ; update ; restart}, every prefix
+               dict(_SCHED, name="refresh+updater", env=dict(VERIF_REFRESH=1, VERIF_NUPD=2, VERIF_NUPD2=0))],
         thorough=[dict(_SCHED, name="2x2-updaters", env=dict(VERIF_PAY=0, VERIF_WIDE=0, VERIF_NUPD=2)),
                   dict(_SCHED, name="payer+2x2-updaters", env=dict(VERIF_PAY=1, VERIF_WIDE=0, VERIF_NUPD=2), max=3000),
                   dict(_SCHED, name="2x2-updaters-wide", env=dict(VERIF_PAY=0, VERIF_WIDE=1, VERIF_NUPD=2), max=1500),
-                  dict(_SCHED, name="payer+updaters-wide", env=dict(VERIF_PAY=1, VERIF_WIDE=1, VERIF_NUPD=1))]),
+                  dict(_SCHED, name="payer+updaters-wide", env=dict(VERIF_PAY=1, VERIF_WIDE=1, VERIF_NUPD=1)),
+                  dict(_SCHED, name="refresh+updater", env=dict(VERIF_REFRESH=1, VERIF_NUPD=2, VERIF_NUPD2=0)),
+                  dict(_SCHED, name="refresh+2updaters", env=dict(VERIF_REFRESH=1, VERIF_NUPD=2, VERIF_NUPD2=1), max=1500)]),
     judge=dict(spec="TrafficRestartTrace.tla", cfg="TrafficRestartTrace.cfg"),
     corrupt=corrupt_field("restart", "post", _c33_corrupt),
-    nontrivial=lambda s: sum(1 for o in s["ops"] if o["op"] in ("start", "paystart")) >= 2,
+    nontrivial=lambda s: sum(1 for o in s["ops"] if o["op"] in ("start", "paystart", "refstart")) >= 2,
     rule="every prefix (= restart point) of every interleaving of the gate-level steps of 2 updaters x 2 updates on one peer "
          "(exhaustive, 251 behaviours), plus payer (issue/emit ok|fail/persist cheque) and updaters on 2 peers / both totals "
-         "(exhaustive or sampled as stated per generator); distinct = distinct step sequence; non-trivial = at least two calls "
+         "(exhaustive or sampled as stated per generator), plus {live refresh || update ; update} on a peer with a record "
+         "(exhaustive, 125 behaviours); distinct = distinct step sequence; non-trivial = at least two calls "
          "were in flight or completed before the restart",
     exhaustive=dict(quick=False, thorough=False),
     assumptions=["a crash loses exactly the writes that had not reached the store; the store itself is durable (C18)",
